@@ -1763,6 +1763,24 @@ impl World for C15 {
             }
             out.push((format!("hand register {}: overwrite one of two equal cards, convert", FROM_NAMES[n as usize]), ops));
         }
+        // two copies of one set, peeled alternately; a copy peeked at, then the original drained
+        // (anything remembered from one peel to the next, keyed on the set's value, shows here)
+        for (name, bits) in [("aces", (0..4).fold(0u64, |a, s| a | card_bit(s * 13))), ("full deck", CARD_MASK), ("one card", card_bit(17)), ("two cards and a high bit", card_bit(3) | card_bit(30) | 1u64 << 55), ("spades", (0..13).fold(0u64, |a, k| a | card_bit(k)))] {
+            let mut ops = vec![Op::BuildRaw { dst: 0, bits }, Op::BuildRaw { dst: 1, bits }];
+            for _ in 0..6 {
+                ops.push(Op::Peel { r: 0 });
+                ops.push(Op::Peel { r: 1 });
+            }
+            ops.push(Op::BuildRaw { dst: 2, bits });
+            ops.push(Op::FoldIn { dst: 3, a: 2, b: Src::Raw(0) }); // a copy made by the crate
+            ops.push(Op::Peel { r: 3 }); // peek
+            ops.push(Op::Drain { r: 2 }); // the original still lists everything
+            ops.push(Op::BuildRaw { dst: 4, bits });
+            ops.push(Op::Drain { r: 4 });
+            ops.push(Op::BuildRaw { dst: 4, bits }); // the same value again, drained again
+            ops.push(Op::Drain { r: 4 });
+            out.push((format!("copies of one set ({}) peeled alternately, peeked, re-drained", name), ops));
+        }
         // folds
         out.push((
             "fold the deck card by card, then fold halves together".into(),
